@@ -76,6 +76,20 @@ pub fn check_pair(rep: &mut Report, r: Rg, s: Rg, seed: u64) {
         };
     }
     rep.inc("pairs");
+    {
+        use std::hash::{Hash, Hasher};
+        let h = |x: &LoopRange| {
+            let mut s = std::collections::hash_map::DefaultHasher::new();
+            x.hash(&mut s);
+            s.finish()
+        };
+        let copy = lr;
+        #[allow(clippy::clone_on_copy)]
+        let cl = lr.clone();
+        if (lr == ls) != (r == s) || copy != lr || cl != lr || h(&copy) != h(&lr) || ((r == s) && h(&lr) != h(&ls)) {
+            bad!("value-semantics", "LoopRange {} vs {}: ==, copy, clone or hash do not follow the bounds", r.txt(), s.txt());
+        }
+    }
     // add
     match guard(|| lr.add(&ls)) {
         Ok(x) => {
